@@ -5237,9 +5237,16 @@ impl<Front: SocketHandler> ConnectionH2<Front> {
                 }));
             }
 
-            kawa.push_block(kawa::Block::Chunk(kawa::Chunk {
-                data: kawa::Store::Slice(slice),
-            }));
+            // A DATA frame without payload (typically the lone END_STREAM frame)
+            // queues no chunk: an empty chunk becomes an empty output slice, and an
+            // HTTP/1.1 writer that is handed nothing but empty slices sees a
+            // zero-byte write, yields, and never reaches its end-of-message
+            // handling - the connection then hangs after the body.
+            if content_len > 0 {
+                kawa.push_block(kawa::Block::Chunk(kawa::Chunk {
+                    data: kawa::Store::Slice(slice),
+                }));
+            }
 
             if kawa.body_size == kawa::BodySize::Chunked && content_len > 0 {
                 kawa.push_block(kawa::Block::Flags(kawa::Flags {
